@@ -326,6 +326,32 @@ func plainNotesPart(s ast.Stmt, late bool, file, fn string, info *types.Info) []
 	markStmt(s)
 	var out []ast.Stmt
 	seen := map[string]bool{}
+	// *p = T{...}: a plain write of every word of a library struct, its atomics included
+	if as, ok := s.(*ast.AssignStmt); ok && !late {
+		for _, l := range as.Lhs {
+			st, ok := l.(*ast.StarExpr)
+			if !ok {
+				continue
+			}
+			tv, ok := info.Types[st.X]
+			if !ok || tv.Type == nil {
+				continue
+			}
+			pt, ok := tv.Type.Underlying().(*types.Pointer)
+			if !ok {
+				continue
+			}
+			named, ok := pt.Elem().(*types.Named)
+			if !ok || named.Obj().Pkg() == nil || !strings.HasPrefix(named.Obj().Pkg().Path(), mod) {
+				continue
+			}
+			if _, isStruct := named.Underlying().(*types.Struct); !isStruct {
+				continue
+			}
+			out = append(out, &ast.ExprStmt{X: vtCall("Plain", newSite(file, fn, exprStr(l), "plain:W*", typeBase(named)+".*", l.Pos()), st.X,
+				&ast.BasicLit{Kind: token.STRING, Value: strconv.Quote("W*")})})
+		}
+	}
 	visit := func(n ast.Node) bool {
 		switch x := n.(type) {
 		case *ast.BlockStmt, *ast.FuncLit, *ast.CaseClause, *ast.CommClause:
